@@ -746,6 +746,12 @@ func (b *BackendServer) startDialout(roomid string, backend *Backend, backendUrl
 	var response atomic.Pointer[DialoutInternalClientMessage]
 
 	session.HandleResponse(id, func(message *ClientMessage) bool {
+		if message.Internal == nil || message.Internal.Type != "dialout" || message.Internal.Dialout == nil {
+			// Only (validated) "dialout" messages are responses to the request, any
+			// other internal message using the same id is processed as usual.
+			return false
+		}
+
 		response.Store(message.Internal.Dialout)
 		cancel()
 		// Don't send error to other sessions in the room.
